@@ -225,7 +225,17 @@ func (w *World) structName(t types.Type) string {
 			name = obj.Pkg().Name() + "." + name
 		}
 		if n.TypeArgs() != nil && n.TypeArgs().Len() > 0 {
-			name += "_" + shortHash(typeKey(t))
+			// instantiations with the generic's own type parameters (as seen inside
+			// generic bodies) share the heap arrays of the generic origin type
+			allParams := true
+			for i := 0; i < n.TypeArgs().Len(); i++ {
+				if _, isTP := n.TypeArgs().At(i).(*types.TypeParam); !isTP {
+					allParams = false
+				}
+			}
+			if !allParams {
+				name += "_" + shortHash(typeKey(t))
+			}
 		}
 		return name
 	}
@@ -452,6 +462,13 @@ func sortTag(s Sort) string {
 func (w *World) CellArray(t types.Type) (string, Sort) {
 	if isByteArray(t) {
 		return "BM", ArraySort(SRef, SBytes)
+	}
+	if at, ok := t.Underlying().(*types.Array); ok {
+		// an array cell [N]T at address p shares the element memory used by
+		// slices over it (p[:]): M_T[p]
+		if _, isStruct := asStruct(at.Elem()); !isStruct {
+			return w.ElemArray(at.Elem())
+		}
 	}
 	s := w.SortOf(t)
 	return "C_" + sortTag(s), ArraySort(SRef, s)
